@@ -31,8 +31,14 @@ fn fold3(vals: impl Iterator<Item = i32>) -> i32 {
     vals.fold(0i32, |acc, v| acc.wrapping_mul(3).wrapping_add(v))
 }
 
+/// `prog!(@ ..)` builds a `Prog`; `prog!(v, ..)` pushes it when the program was compiled in
+/// (build.rs sets one `--cfg <program name>` per instantiated program, see VF_EMB1_FAMILY).
 macro_rules! prog {
-    ($name:ident, $desc:expr, $out:ident, b=$ub:expr, s=$us:expr, keyed=$k:expr, $r:expr) => {
+    ($v:ident, $name:ident, $desc:expr, $out:ident, b=$ub:expr, s=$us:expr, keyed=$k:expr, $r:expr) => {
+        #[cfg($name)]
+        $v.push(prog!(@ $name, $desc, $out, b = $ub, s = $us, keyed = $k, $r));
+    };
+    (@ $name:ident, $desc:expr, $out:ident, b=$ub:expr, s=$us:expr, keyed=$k:expr, $r:expr) => {
         Prog {
             name: stringify!($name),
             desc: $desc,
@@ -49,57 +55,58 @@ macro_rules! prog {
 
 // ---------------------------------------------------------------------------------- corpus (C28)
 pub fn corpus() -> Vec<Prog> {
-    vec![
-        prog!(c_prefix, "a.cross_singleton(s).map", Seq, b = false, s = true, keyed = false,
-            Some(|a: &[E], _b: &[E], s: i32| RefOut::Stream(a.iter().map(|(k, v)| (*k, v + 100 * s)).collect()))),
-        prog!(c_capitalize, "a.map", Seq, b = false, s = false, keyed = false,
-            Some(|a: &[E], _b: &[E], _s: i32| RefOut::Stream(a.iter().map(|(k, v)| (*k, v * 7)).collect()))),
-        prog!(c_into_stream_chain, "s.into_stream().map.chain(a)", Seq, b = false, s = true, keyed = false,
+    #[allow(unused_mut)]
+    let mut v = Vec::new();
+        prog!(v, c_prefix, "a.cross_singleton(s).map", Seq, b = false, s = true, keyed = false,
+            Some(|a: &[E], _b: &[E], s: i32| RefOut::Stream(a.iter().map(|(k, v)| (*k, v + 100 * s)).collect())));
+        prog!(v, c_capitalize, "a.map", Seq, b = false, s = false, keyed = false,
+            Some(|a: &[E], _b: &[E], _s: i32| RefOut::Stream(a.iter().map(|(k, v)| (*k, v * 7)).collect())));
+        prog!(v, c_into_stream_chain, "s.into_stream().map.chain(a)", Seq, b = false, s = true, keyed = false,
             Some(|a: &[E], _b: &[E], s: i32| {
                 let mut v = vec![(9, s)];
                 v.extend_from_slice(a);
                 RefOut::Stream(v)
-            })),
-        prog!(c_sort_chain, "source_iter.sort().chain(a)", Seq, b = false, s = false, keyed = false,
+            }));
+        prog!(v, c_sort_chain, "source_iter.sort().chain(a)", Seq, b = false, s = false, keyed = false,
             Some(|a: &[E], _b: &[E], _s: i32| {
                 let mut v = vec![(0, 1), (0, 5), (1, 2)];
                 v.extend_from_slice(a);
                 RefOut::Stream(v)
-            })),
-        prog!(c_collect_vec, "a.collect_vec()", Last, b = false, s = false, keyed = false,
-            Some(|a: &[E], _b: &[E], _s: i32| RefOut::Value(e_pairs(a)))),
-        prog!(c_limit, "a.limit(2)", Seq, b = false, s = false, keyed = false,
-            Some(|a: &[E], _b: &[E], _s: i32| RefOut::Stream(a.iter().take(2).copied().collect()))),
-        prog!(c_zip_count_fold, "a.cross_singleton(s.zip(source_iter.fold))", Seq, b = false, s = true, keyed = false,
-            Some(|a: &[E], _b: &[E], s: i32| RefOut::Stream(a.iter().map(|(k, v)| (*k, v + 100 * s + 11000)).collect()))),
-        prog!(c_optional_or, "a.filter.max().or(b.min())", Last, b = true, s = false, keyed = false,
+            }));
+        prog!(v, c_collect_vec, "a.collect_vec()", Last, b = false, s = false, keyed = false,
+            Some(|a: &[E], _b: &[E], _s: i32| RefOut::Value(e_pairs(a))));
+        prog!(v, c_limit, "a.limit(2)", Seq, b = false, s = false, keyed = false,
+            Some(|a: &[E], _b: &[E], _s: i32| RefOut::Stream(a.iter().take(2).copied().collect())));
+        prog!(v, c_zip_count_fold, "a.cross_singleton(s.zip(source_iter.fold))", Seq, b = false, s = true, keyed = false,
+            Some(|a: &[E], _b: &[E], s: i32| RefOut::Stream(a.iter().map(|(k, v)| (*k, v + 100 * s + 11000)).collect())));
+        prog!(v, c_optional_or, "a.filter.max().or(b.min())", Last, b = true, s = false, keyed = false,
             Some(|a: &[E], b: &[E], _s: i32| {
                 let m = a.iter().filter(|e| e.1 == 2).max().copied().or(b.iter().min().copied());
                 RefOut::Value(e_opt_pair(m))
-            })),
-        prog!(c_singleton_filter, "a.count().filter(odd)", Last, b = false, s = false, keyed = false,
+            }));
+        prog!(v, c_singleton_filter, "a.count().filter(odd)", Last, b = false, s = false, keyed = false,
             Some(|a: &[E], _b: &[E], _s: i32| {
                 RefOut::Value(if a.len() % 2 == 1 { vec![-1001, a.len() as i64] } else { vec![-1000] })
-            })),
-        prog!(c_is_some_and, "a.first().is_some()", Last, b = false, s = false, keyed = false,
-            Some(|a: &[E], _b: &[E], _s: i32| RefOut::Value(vec![!a.is_empty() as i64]))),
-        prog!(c_key_count, "a.into_keyed().fold.key_count()", Last, b = false, s = false, keyed = false,
-            Some(|a: &[E], _b: &[E], _s: i32| RefOut::Value(vec![firsts(a).len() as i64]))),
-        prog!(c_key_count_bounded_value, "a.into_keyed().first().key_count()", Last, b = false, s = false, keyed = false,
-            Some(|a: &[E], _b: &[E], _s: i32| RefOut::Value(vec![firsts(a).len() as i64]))),
-        prog!(c_join_keyed, "a.into_keyed().join_keyed_stream(b.into_keyed())", Multiset, b = true, s = false, keyed = false,
-            Some(|a: &[E], b: &[E], _s: i32| RefOut::Stream(crate::refsem::r_join(a.to_vec(), b.to_vec())))),
-        prog!(c_keyed_merge_fold, "a.into_keyed().merge_unordered(b.into_keyed()).fold(sum)", Last, b = true, s = false, keyed = false,
+            }));
+        prog!(v, c_is_some_and, "a.first().is_some()", Last, b = false, s = false, keyed = false,
+            Some(|a: &[E], _b: &[E], _s: i32| RefOut::Value(vec![!a.is_empty() as i64])));
+        prog!(v, c_key_count, "a.into_keyed().fold.key_count()", Last, b = false, s = false, keyed = false,
+            Some(|a: &[E], _b: &[E], _s: i32| RefOut::Value(vec![firsts(a).len() as i64])));
+        prog!(v, c_key_count_bounded_value, "a.into_keyed().first().key_count()", Last, b = false, s = false, keyed = false,
+            Some(|a: &[E], _b: &[E], _s: i32| RefOut::Value(vec![firsts(a).len() as i64])));
+        prog!(v, c_join_keyed, "a.into_keyed().join_keyed_stream(b.into_keyed())", Multiset, b = true, s = false, keyed = false,
+            Some(|a: &[E], b: &[E], _s: i32| RefOut::Stream(crate::refsem::r_join(a.to_vec(), b.to_vec()))));
+        prog!(v, c_keyed_merge_fold, "a.into_keyed().merge_unordered(b.into_keyed()).fold(sum)", Last, b = true, s = false, keyed = false,
             Some(|a: &[E], b: &[E], _s: i32| {
                 let mut all = a.to_vec();
                 all.extend_from_slice(b);
                 RefOut::Value(crate::refsem::r_kfold_n(all))
-            })),
-        prog!(c_join_bounded, "a.join(source_iter)", Seq, b = false, s = false, keyed = false,
-            Some(|a: &[E], _b: &[E], _s: i32| RefOut::Stream(crate::refsem::r_join(a.to_vec(), vec![(0, 5), (1, 6), (0, 7)])))),
-        prog!(c_get_max_key, "a.into_keyed().first().get_max_key()", Last, b = false, s = false, keyed = false,
-            Some(|a: &[E], _b: &[E], _s: i32| RefOut::Value(e_opt_pair(firsts(a).into_iter().next_back())))),
-    ]
+            }));
+        prog!(v, c_join_bounded, "a.join(source_iter)", Seq, b = false, s = false, keyed = false,
+            Some(|a: &[E], _b: &[E], _s: i32| RefOut::Stream(crate::refsem::r_join(a.to_vec(), vec![(0, 5), (1, 6), (0, 7)]))));
+        prog!(v, c_get_max_key, "a.into_keyed().first().get_max_key()", Last, b = false, s = false, keyed = false,
+            Some(|a: &[E], _b: &[E], _s: i32| RefOut::Value(e_opt_pair(firsts(a).into_iter().next_back()))));
+    v
 }
 
 // ------------------------------------------------------------------------------ keyed (C29, C28)
@@ -116,41 +123,43 @@ fn each(v: impl Iterator<Item = i32>) -> Vec<Vec<i64>> {
 
 pub fn keyed() -> Vec<KProg> {
     macro_rules! kp {
-        ($name:ident, $desc:expr, $out:ident, s=$us:expr, $kref:expr) => {
-            KProg { prog: prog!($name, $desc, $out, b = false, s = $us, keyed = true, None), kref: $kref }
+        ($v:ident, $name:ident, $desc:expr, $out:ident, s=$us:expr, $kref:expr) => {
+            #[cfg($name)]
+            $v.push(KProg { prog: prog!(@ $name, $desc, $out, b = false, s = $us, keyed = true, None), kref: $kref });
         };
     }
-    vec![
-        kp!(k_id, "a.into_keyed()", KeyedSeq, s = false, |_k, v, _s| each(v.iter().copied())),
-        kp!(k_map, "keyed.map", KeyedSeq, s = false, |_k, v, _s| each(v.iter().map(|x| x * 2 + 1))),
-        kp!(k_map_with_key, "keyed.map_with_key", KeyedSeq, s = false, |k, v, _s| each(v.iter().map(|x| x + 10 * k))),
-        kp!(k_filter, "keyed.filter", KeyedSeq, s = false, |_k, v, _s| each(v.iter().copied().filter(|x| *x != 1))),
-        kp!(k_filter_map, "keyed.filter_map", KeyedSeq, s = false, |_k, v, _s| each(v.iter().filter(|x| **x > 0).map(|x| x - 1))),
-        kp!(k_flat_map_ordered, "keyed.flat_map_ordered", KeyedSeq, s = false, |_k, v, _s| each(v.iter().flat_map(|x| [*x, x + 10]))),
-        kp!(k_inspect, "keyed.inspect", KeyedSeq, s = false, |_k, v, _s| each(v.iter().copied())),
-        kp!(k_scan, "keyed.scan", KeyedSeq, s = false, |_k, v, _s| {
+    #[allow(unused_mut)]
+    let mut v = Vec::new();
+        kp!(v, k_id, "a.into_keyed()", KeyedSeq, s = false, |_k, v, _s| each(v.iter().copied()));
+        kp!(v, k_map, "keyed.map", KeyedSeq, s = false, |_k, v, _s| each(v.iter().map(|x| x * 2 + 1)));
+        kp!(v, k_map_with_key, "keyed.map_with_key", KeyedSeq, s = false, |k, v, _s| each(v.iter().map(|x| x + 10 * k)));
+        kp!(v, k_filter, "keyed.filter", KeyedSeq, s = false, |_k, v, _s| each(v.iter().copied().filter(|x| *x != 1)));
+        kp!(v, k_filter_map, "keyed.filter_map", KeyedSeq, s = false, |_k, v, _s| each(v.iter().filter(|x| **x > 0).map(|x| x - 1)));
+        kp!(v, k_flat_map_ordered, "keyed.flat_map_ordered", KeyedSeq, s = false, |_k, v, _s| each(v.iter().flat_map(|x| [*x, x + 10])));
+        kp!(v, k_inspect, "keyed.inspect", KeyedSeq, s = false, |_k, v, _s| each(v.iter().copied()));
+        kp!(v, k_scan, "keyed.scan", KeyedSeq, s = false, |_k, v, _s| {
             let mut acc = 0i32;
             each(v.iter().map(|x| {
                 acc = acc.wrapping_mul(3).wrapping_add(*x);
                 acc
             }))
-        }),
-        kp!(k_enumerate, "keyed.enumerate", KeyedSeq, s = false, |_k, v, _s| each(v.iter().enumerate().map(|(i, x)| x * 10 + i as i32))),
-        kp!(k_limit, "keyed.limit(2)", KeyedSeq, s = false, |_k, v, _s| each(v.iter().take(2).copied())),
-        kp!(k_cross_singleton, "keyed.cross_singleton(s)", KeyedSeq, s = true, |_k, v, s| each(v.iter().map(|x| x + 100 * s))),
-        kp!(k_filter_key_not_in, "keyed.filter_key_not_in([1])", KeyedSeq, s = false, |k, v, _s| {
+        });
+        kp!(v, k_enumerate, "keyed.enumerate", KeyedSeq, s = false, |_k, v, _s| each(v.iter().enumerate().map(|(i, x)| x * 10 + i as i32)));
+        kp!(v, k_limit, "keyed.limit(2)", KeyedSeq, s = false, |_k, v, _s| each(v.iter().take(2).copied()));
+        kp!(v, k_cross_singleton, "keyed.cross_singleton(s)", KeyedSeq, s = true, |_k, v, s| each(v.iter().map(|x| x + 100 * s)));
+        kp!(v, k_filter_key_not_in, "keyed.filter_key_not_in([1])", KeyedSeq, s = false, |k, v, _s| {
             if k == 1 { vec![] } else { each(v.iter().copied()) }
-        }),
-        kp!(k_join_keyed_singleton, "keyed.join_keyed_singleton({0:5,1:6})", KeyedSeq, s = false, |k, v, _s| match k {
+        });
+        kp!(v, k_join_keyed_singleton, "keyed.join_keyed_singleton({0:5,1:6})", KeyedSeq, s = false, |k, v, _s| match k {
             0 => each(v.iter().map(|x| x * 10 + 5)),
             1 => each(v.iter().map(|x| x * 10 + 6)),
             _ => vec![],
-        }),
-        kp!(k_fold, "keyed.fold", Last, s = false, |_k, v, _s| vec![vec![fold3(v.iter().copied()) as i64]]),
-        kp!(k_reduce, "keyed.reduce", Last, s = false, |_k, v, _s| vec![vec![fold3(v.iter().copied()) as i64]]),
-        kp!(k_value_counts, "keyed.value_counts", Last, s = false, |_k, v, _s| vec![vec![v.len() as i64]]),
-        kp!(k_first, "keyed.first", Multiset, s = false, |_k, v, _s| vec![vec![v[0] as i64]]),
-        kp!(k_fold_early_stop, "keyed.fold_early_stop", Multiset, s = false, |_k, v, _s| {
+        });
+        kp!(v, k_fold, "keyed.fold", Last, s = false, |_k, v, _s| vec![vec![fold3(v.iter().copied()) as i64]]);
+        kp!(v, k_reduce, "keyed.reduce", Last, s = false, |_k, v, _s| vec![vec![fold3(v.iter().copied()) as i64]]);
+        kp!(v, k_value_counts, "keyed.value_counts", Last, s = false, |_k, v, _s| vec![vec![v.len() as i64]]);
+        kp!(v, k_first, "keyed.first", Multiset, s = false, |_k, v, _s| vec![vec![v[0] as i64]]);
+        kp!(v, k_fold_early_stop, "keyed.fold_early_stop", Multiset, s = false, |_k, v, _s| {
             let mut acc = 0i32;
             for x in v {
                 acc = acc.wrapping_mul(3).wrapping_add(*x);
@@ -159,20 +168,23 @@ pub fn keyed() -> Vec<KProg> {
                 }
             }
             vec![]
-        }),
-        kp!(k_unique, "keyed.unique", Multiset, s = false, |_k, v, _s| {
+        });
+        kp!(v, k_unique, "keyed.unique", Multiset, s = false, |_k, v, _s| {
             let mut u: Vec<i32> = v.to_vec();
             u.sort();
             u.dedup();
             each(u.into_iter())
-        }),
-    ]
+        });
+    v
 }
 
 /// `k_get` has a plain (non-keyed) TotalOrder output.
 pub fn keyed_plain() -> Vec<Prog> {
-    vec![prog!(k_get, "a.into_keyed().get(s % 2)", Seq, b = false, s = true, keyed = false,
-        Some(|a: &[E], _b: &[E], s: i32| RefOut::Stream(a.iter().filter(|e| e.0 == s % 2).map(|e| (0, e.1)).collect())))]
+    #[allow(unused_mut)]
+    let mut v = Vec::new();
+    prog!(v, k_get, "a.into_keyed().get(s % 2)", Seq, b = false, s = true, keyed = false,
+        Some(|a: &[E], _b: &[E], s: i32| RefOut::Stream(a.iter().filter(|e| e.0 == s % 2).map(|e| (0, e.1)).collect())));
+    v
 }
 
 // ------------------------------------------------------------------------------------ weak (C32)
@@ -201,8 +213,9 @@ pub struct WProg {
 
 pub fn weak() -> Vec<WProg> {
     macro_rules! wp {
-        ($name:ident, $desc:expr, $out:ident, b=$ub:expr, $vary:ident, $single:expr, $site:expr, $r:expr) => {
-            WProg { prog: prog!($name, $desc, $out, b = $ub, s = false, keyed = false, $r), vary: Vary::$vary, single_tick: $single, site: $site }
+        ($v:ident, $name:ident, $desc:expr, $out:ident, b=$ub:expr, $vary:ident, $single:expr, $site:expr, $r:expr) => {
+            #[cfg($name)]
+            $v.push(WProg { prog: prog!(@ $name, $desc, $out, b = $ub, s = false, keyed = false, $r), vary: Vary::$vary, single_tick: $single, site: $site });
         };
     }
     fn sorted_pairs(m: BTreeMap<i32, i64>) -> Vec<i64> {
@@ -213,37 +226,38 @@ pub fn weak() -> Vec<WProg> {
         }
         out
     }
-    vec![
-        wp!(w_max, "weakest(a).max()", Last, b = false, AnyOrderDup, false, "Stream::max",
-            Some(|a: &[E], _b: &[E], _s: i32| RefOut::Value(e_opt_pair(a.iter().max().copied())))),
-        wp!(w_min, "weakest(a).min()", Last, b = false, AnyOrderDup, false, "Stream::min",
-            Some(|a: &[E], _b: &[E], _s: i32| RefOut::Value(e_opt_pair(a.iter().min().copied())))),
-        wp!(w_count, "a.weaken_ordering().count()", Last, b = false, AnyOrder, false, "Stream::count",
-            Some(|a: &[E], _b: &[E], _s: i32| RefOut::Value(vec![a.len() as i64]))),
-        wp!(w_first, "a.weaken_retries().first()", Last, b = false, AdjacentDup, false, "Stream::first",
-            Some(|a: &[E], _b: &[E], _s: i32| RefOut::Value(e_opt_pair(a.first().copied())))),
-        wp!(w_last, "a.weaken_retries().last()", Last, b = false, AdjacentDup, false, "Stream::last",
-            Some(|a: &[E], _b: &[E], _s: i32| RefOut::Value(e_opt_pair(a.last().copied())))),
-        wp!(w_weaken_ordering, "a.weaken_ordering()", Multiset, b = false, Exact, false, "Stream::weaken_ordering",
-            Some(|a: &[E], _b: &[E], _s: i32| RefOut::Stream(a.to_vec()))),
-        wp!(w_weaken_retries, "a.weaken_retries()", Set, b = false, Exact, false, "Stream::weaken_retries",
-            Some(|a: &[E], _b: &[E], _s: i32| RefOut::Stream(a.to_vec()))),
-        wp!(w_make_total_exact, "a.make_totally_ordered().make_exactly_once()", Seq, b = false, Exact, false,
+    #[allow(unused_mut)]
+    let mut v = Vec::new();
+        wp!(v, w_max, "weakest(a).max()", Last, b = false, AnyOrderDup, false, "Stream::max",
+            Some(|a: &[E], _b: &[E], _s: i32| RefOut::Value(e_opt_pair(a.iter().max().copied()))));
+        wp!(v, w_min, "weakest(a).min()", Last, b = false, AnyOrderDup, false, "Stream::min",
+            Some(|a: &[E], _b: &[E], _s: i32| RefOut::Value(e_opt_pair(a.iter().min().copied()))));
+        wp!(v, w_count, "a.weaken_ordering().count()", Last, b = false, AnyOrder, false, "Stream::count",
+            Some(|a: &[E], _b: &[E], _s: i32| RefOut::Value(vec![a.len() as i64])));
+        wp!(v, w_first, "a.weaken_retries().first()", Last, b = false, AdjacentDup, false, "Stream::first",
+            Some(|a: &[E], _b: &[E], _s: i32| RefOut::Value(e_opt_pair(a.first().copied()))));
+        wp!(v, w_last, "a.weaken_retries().last()", Last, b = false, AdjacentDup, false, "Stream::last",
+            Some(|a: &[E], _b: &[E], _s: i32| RefOut::Value(e_opt_pair(a.last().copied()))));
+        wp!(v, w_weaken_ordering, "a.weaken_ordering()", Multiset, b = false, Exact, false, "Stream::weaken_ordering",
+            Some(|a: &[E], _b: &[E], _s: i32| RefOut::Stream(a.to_vec())));
+        wp!(v, w_weaken_retries, "a.weaken_retries()", Set, b = false, Exact, false, "Stream::weaken_retries",
+            Some(|a: &[E], _b: &[E], _s: i32| RefOut::Stream(a.to_vec())));
+        wp!(v, w_make_total_exact, "a.make_totally_ordered().make_exactly_once()", Seq, b = false, Exact, false,
             "Stream::make_totally_ordered/make_exactly_once",
-            Some(|a: &[E], _b: &[E], _s: i32| RefOut::Stream(a.to_vec()))),
-        wp!(w_keyed_weaken, "keyed.weaken_ordering().weaken_retries()", Set, b = false, PerKeyOrder, false,
+            Some(|a: &[E], _b: &[E], _s: i32| RefOut::Stream(a.to_vec())));
+        wp!(v, w_keyed_weaken, "keyed.weaken_ordering().weaken_retries()", Set, b = false, PerKeyOrder, false,
             "KeyedStream::weaken_ordering/weaken_retries",
-            Some(|a: &[E], _b: &[E], _s: i32| RefOut::Stream(a.to_vec()))),
-        wp!(w_keyed_make_total_exact, "keyed.make_totally_ordered().make_exactly_once()", KeyedSeq, b = false, PerKeyOrder, false,
+            Some(|a: &[E], _b: &[E], _s: i32| RefOut::Stream(a.to_vec())));
+        wp!(v, w_keyed_make_total_exact, "keyed.make_totally_ordered().make_exactly_once()", KeyedSeq, b = false, PerKeyOrder, false,
             "KeyedStream::make_totally_ordered/make_exactly_once",
-            Some(|a: &[E], _b: &[E], _s: i32| RefOut::Stream(a.to_vec()))),
-        wp!(w_keyed_value_counts, "keyed.weaken_ordering().value_counts()", Last, b = false, AnyOrder, false,
+            Some(|a: &[E], _b: &[E], _s: i32| RefOut::Stream(a.to_vec())));
+        wp!(v, w_keyed_value_counts, "keyed.weaken_ordering().value_counts()", Last, b = false, AnyOrder, false,
             "KeyedStream::value_counts",
-            Some(|a: &[E], _b: &[E], _s: i32| RefOut::Value(crate::refsem::r_kcount(a.to_vec())))),
-        wp!(w_is_empty, "weakest(a).batch().is_empty()", Seq, b = false, AnyOrderDup, true, "Stream::is_empty", None),
-        wp!(w_repeat_with_keys, "weakest(a).batch().repeat_with_keys(b.batch().into_keyed().first())", Set, b = true,
-            AnyOrderDup, true, "Stream::repeat_with_keys", None),
-        wp!(w_ks_into_singleton, "keyed.weaken_ordering().fold(sum).into_singleton()", Last, b = false, AnyOrder, false,
+            Some(|a: &[E], _b: &[E], _s: i32| RefOut::Value(crate::refsem::r_kcount(a.to_vec()))));
+        wp!(v, w_is_empty, "weakest(a).batch().is_empty()", Seq, b = false, AnyOrderDup, true, "Stream::is_empty", None);
+        wp!(v, w_repeat_with_keys, "weakest(a).batch().repeat_with_keys(b.batch().into_keyed().first())", Set, b = true,
+            AnyOrderDup, true, "Stream::repeat_with_keys", None);
+        wp!(v, w_ks_into_singleton, "keyed.weaken_ordering().fold(sum).into_singleton()", Last, b = false, AnyOrder, false,
             "KeyedSingleton::into_singleton (into_singleton_inside_tick)",
             Some(|a: &[E], _b: &[E], _s: i32| {
                 let mut m: BTreeMap<i32, i64> = BTreeMap::new();
@@ -251,20 +265,20 @@ pub fn weak() -> Vec<WProg> {
                     *m.entry(*k).or_insert(0) += *v as i64;
                 }
                 RefOut::Value(sorted_pairs(m))
-            })),
-        wp!(w_ks_key_count, "keyed.weaken_ordering().fold(sum).key_count()", Last, b = false, AnyOrder, false,
+            }));
+        wp!(v, w_ks_key_count, "keyed.weaken_ordering().fold(sum).key_count()", Last, b = false, AnyOrder, false,
             "KeyedSingleton::key_count (key_count_inside_tick)",
-            Some(|a: &[E], _b: &[E], _s: i32| RefOut::Value(vec![firsts(a).len() as i64]))),
-        wp!(w_ks_into_singleton_bounded_value, "keyed.first().into_singleton()", Last, b = false, PerKeyOrder, false,
+            Some(|a: &[E], _b: &[E], _s: i32| RefOut::Value(vec![firsts(a).len() as i64])));
+        wp!(v, w_ks_into_singleton_bounded_value, "keyed.first().into_singleton()", Last, b = false, PerKeyOrder, false,
             "KeyedSingleton::into_singleton (bounded value)",
-            Some(|a: &[E], _b: &[E], _s: i32| RefOut::Value(sorted_pairs(firsts(a).into_iter().map(|(k, v)| (k, v as i64)).collect())))),
-        wp!(w_ks_key_count_bounded_value, "keyed.first().key_count()", Last, b = false, PerKeyOrder, false,
+            Some(|a: &[E], _b: &[E], _s: i32| RefOut::Value(sorted_pairs(firsts(a).into_iter().map(|(k, v)| (k, v as i64)).collect()))));
+        wp!(v, w_ks_key_count_bounded_value, "keyed.first().key_count()", Last, b = false, PerKeyOrder, false,
             "KeyedSingleton::key_count (bounded value)",
-            Some(|a: &[E], _b: &[E], _s: i32| RefOut::Value(vec![firsts(a).len() as i64]))),
-        wp!(w_ks_get_max_key, "keyed.first().get_max_key()", Last, b = false, PerKeyOrder, false,
+            Some(|a: &[E], _b: &[E], _s: i32| RefOut::Value(vec![firsts(a).len() as i64])));
+        wp!(v, w_ks_get_max_key, "keyed.first().get_max_key()", Last, b = false, PerKeyOrder, false,
             "KeyedSingleton::get_max_key",
-            Some(|a: &[E], _b: &[E], _s: i32| RefOut::Value(e_opt_pair(firsts(a).into_iter().next_back())))),
-    ]
+            Some(|a: &[E], _b: &[E], _s: i32| RefOut::Value(e_opt_pair(firsts(a).into_iter().next_back()))));
+    v
 }
 
 // -------------------------------------------------------------------------------- monotone (C33)
@@ -293,26 +307,28 @@ pub struct MProg {
 
 pub fn monotone() -> Vec<MProg> {
     macro_rules! mp {
-        ($name:ident, $desc:expr, $out:ident, b=$ub:expr, $ob:ident) => {
-            MProg { prog: prog!($name, $desc, $out, b = $ub, s = false, keyed = false, None), oblig: Oblig::$ob }
+        ($v:ident, $name:ident, $desc:expr, $out:ident, b=$ub:expr, $ob:ident) => {
+            #[cfg($name)]
+            $v.push(MProg { prog: prog!(@ $name, $desc, $out, b = $ub, s = false, keyed = false, None), oblig: Oblig::$ob });
         };
     }
-    vec![
-        mp!(m_count, "a.count()", Last, b = false, MonotonicScalar),
-        mp!(m_count_merge, "a.merge_unordered(b).count()", Last, b = true, MonotonicScalar),
-        mp!(m_count_join, "a.join(b).count()", Last, b = true, MonotonicScalar),
-        mp!(m_count_unique, "a.unique().count()", Last, b = false, MonotonicScalar),
-        mp!(m_fold_sum, "a.fold(sum, monotone)", Last, b = false, MonotonicScalar),
-        mp!(m_fold_max, "a.fold(max, monotone)", Last, b = false, MonotonicScalar),
-        mp!(m_count_map, "a.count().map(order_preserving)", Last, b = false, MonotonicScalar),
-        mp!(m_keyed_value_counts, "keyed.value_counts()", Last, b = false, MonotonicValue),
-        mp!(m_keyed_value_counts_merge, "keyed(a).merge_unordered(keyed(b)).value_counts()", Last, b = true, MonotonicValue),
-        mp!(m_keyed_fold_monotone, "keyed.fold(sum, monotone)", Last, b = false, MonotonicValue),
-        mp!(m_keyed_fold_plain, "keyed.fold(non-monotone)", Last, b = false, MonotonicKeys),
-        mp!(m_keyed_value_counts_map, "keyed.value_counts().map(decreasing)", Last, b = false, MonotonicKeys),
-        mp!(m_keyed_first, "keyed.first() [snapshots]", Last, b = false, BoundedValue),
-        mp!(m_keyed_first_map_filter, "keyed.first().map.filter [snapshots]", Last, b = false, BoundedValue),
-        mp!(m_keyed_fold_early_stop, "keyed.fold_early_stop [snapshots]", Last, b = false, BoundedValue),
-        mp!(m_keyed_first_entries, "keyed.first().entries()", Multiset, b = false, BoundedValueEntries),
-    ]
+    #[allow(unused_mut)]
+    let mut v = Vec::new();
+        mp!(v, m_count, "a.count()", Last, b = false, MonotonicScalar);
+        mp!(v, m_count_merge, "a.merge_unordered(b).count()", Last, b = true, MonotonicScalar);
+        mp!(v, m_count_join, "a.join(b).count()", Last, b = true, MonotonicScalar);
+        mp!(v, m_count_unique, "a.unique().count()", Last, b = false, MonotonicScalar);
+        mp!(v, m_fold_sum, "a.fold(sum, monotone)", Last, b = false, MonotonicScalar);
+        mp!(v, m_fold_max, "a.fold(max, monotone)", Last, b = false, MonotonicScalar);
+        mp!(v, m_count_map, "a.count().map(order_preserving)", Last, b = false, MonotonicScalar);
+        mp!(v, m_keyed_value_counts, "keyed.value_counts()", Last, b = false, MonotonicValue);
+        mp!(v, m_keyed_value_counts_merge, "keyed(a).merge_unordered(keyed(b)).value_counts()", Last, b = true, MonotonicValue);
+        mp!(v, m_keyed_fold_monotone, "keyed.fold(sum, monotone)", Last, b = false, MonotonicValue);
+        mp!(v, m_keyed_fold_plain, "keyed.fold(non-monotone)", Last, b = false, MonotonicKeys);
+        mp!(v, m_keyed_value_counts_map, "keyed.value_counts().map(decreasing)", Last, b = false, MonotonicKeys);
+        mp!(v, m_keyed_first, "keyed.first() [snapshots]", Last, b = false, BoundedValue);
+        mp!(v, m_keyed_first_map_filter, "keyed.first().map.filter [snapshots]", Last, b = false, BoundedValue);
+        mp!(v, m_keyed_fold_early_stop, "keyed.fold_early_stop [snapshots]", Last, b = false, BoundedValue);
+        mp!(v, m_keyed_first_entries, "keyed.first().entries()", Multiset, b = false, BoundedValueEntries);
+    v
 }
